@@ -194,8 +194,9 @@ func (matrix *DenseReal64Matrix) SLICE(rfrom, rto, cfrom, cto int) *DenseReal64M
   return &m
 }
 func (matrix *DenseReal64Matrix) AsDenseReal64Vector() DenseReal64Vector {
-  if matrix.cols < matrix.colMax - matrix.colOffset ||
-    (matrix.rows < matrix.rowMax - matrix.rowOffset) {
+  // a view (transposed, or fewer rows or columns than the storage block) does
+  // not own a contiguous row-major block: collect its elements
+  if matrix.transposed || matrix.rowMax > matrix.rows || matrix.colMax > matrix.cols {
     n, m := matrix.Dims()
     v := nilDenseReal64Vector(n*m)
     for i := 0; i < n; i++ {
